@@ -166,6 +166,40 @@ pub fn suite_c18(ctx: &mut Ctx) {
                 }
             }
         }
+        // tiny x with tiny coefficients: every term lives in the lowest quire limbs (carries between them),
+        // and: a large tie-forming pair of terms plus a far smaller one (sticky bits across limbs)
+        let nt = ctx.q(300, 6000);
+        for r in 0..nt {
+            let deg = DEGS[r % DEGS.len()];
+            let nc = ncoef(deg);
+            let maxs = ((ty.n - 2) << ty.es) as i32;
+            let (x, cs): (u64, Vec<Vec<u64>>) = if r % 2 == 0 {
+                let x = [1u64, 2, 3, gen::neg(ty.n, 1)][ (r / 2) % 4];
+                let cs = (0..nc).map(|_| {
+                    let v = gen::from_scale(ty.n, ty.es, ctx.rng.gen_range(-maxs..-maxs / 2), ctx.rng.gen::<u64>());
+                    vec![if ctx.rng.gen::<bool>() { gen::neg(ty.n, v) } else { v }]
+                }).collect();
+                (x, cs)
+            } else {
+                // c_last = big, c_(last-1) * x = half ulp of big, leading coefficient * x^deg = dust
+                let sc = ctx.rng.gen_range(0..maxs);
+                let big = gen::from_scale(ty.n, ty.es, sc, [0u64, u64::MAX, 1 << 63, ctx.rng.gen::<u64>()][(r / 2) % 4]);
+                let (_, s2, nf, _) = gen::decode(ty.n, ty.es, big);
+                let x = 1u64; // minpos: all powers saturate at minpos = 2^-maxs
+                let half = gen::from_scale(ty.n, ty.es, (s2 - nf as i32 - 1 + maxs).clamp(-maxs, maxs), 0);
+                let mut cs: Vec<Vec<u64>> = (0..nc).map(|_| vec![0u64]).collect();
+                cs[nc - 1] = vec![big];
+                cs[nc - 2] = vec![half];
+                if nc >= 3 {
+                    let d = gen::from_scale(ty.n, ty.es, ctx.rng.gen_range(-maxs..(-maxs / 2)), ctx.rng.gen::<u64>());
+                    cs[ctx.rng.gen_range(0..nc - 2)] = vec![if ctx.rng.gen::<bool>() { gen::neg(ty.n, d) } else { d }];
+                }
+                (x, cs)
+            };
+            let line = poly_event(ty.name, x, deg, 0, &cs);
+            ctx.sink.line(&line);
+            *ctx.sink.per_op.entry(format!("{}.poly{}", ty.name, deg)).or_insert(0) += 1;
+        }
         // well-conditioned small cases where a wrong index / wrong power is visible in the value:
         // x = 2, c_i = distinct small integers
         for &deg in DEGS.iter() {
